@@ -377,7 +377,8 @@ Unquote(s) == IF Len(s) >= 2 /\ SubSeq(s, 1, 1) = "\"" /\ SubSeq(s, Len(s), Len(
 MacroFileName(st, name) ==
   LET i == DefIdx(st.defs, name) IN
   IF i = 0 \/ st.defs[i].none \/ st.defs[i].b = <<>> THEN ""
-  ELSE Unquote(TokText(st.defs[i].b[1].toks))
+  \* (a // comment or a line continuation behind the name is no part of it: the text is trimmed before it is unquoted)
+  ELSE Unquote(TokText(SelectSeq(st.defs[i].b[1].toks, LAMBDA t : t.k \notin {"lcmt", "cont", "cmt"})))
 
 \* Errors of the callee are wrapped in Include at the call site, hence FailDeeper for
 \* everything that is detected on behalf of the included file.
